@@ -64,25 +64,53 @@ func c10Operand(t *rapid.T, op expr.BinaryOp, idx int, w expr.Width, label strin
 func TestC10(t *testing.T) {
 	col := ev.New("C10", "rapid: operator in {add,lsh,rsh,mul,div,nand,less} x operation width 1..255 x two "+
 		"independently drawn operand widths x boundary-biased operand values (carry chains, shift thresholds, "+
-		"zero/truncated divisors); oracle = math/big arithmetic of the documented width rules. non-trivial = an "+
+		"zero/truncated divisors; a quarter of the operands is the (possibly re-widthed) result of an earlier fold of "+
+		"the same case, and all results are re-checked at the end of the case); oracle = math/big arithmetic of the documented width rules. non-trivial = an "+
 		"operand width differs from the operation width, or a shift >= 8 bits, or the exact result needed "+
 		"reduction modulo 2^(8w); distinct by (op, widths, operand bytes)")
 	defer col.Flush()
 	inner := ev.Scale(10, 10)
 
 	rapid.Check(t, func(t *rapid.T) {
+		// Results of earlier folds are ordinary constants: a quarter of the operands
+		// is an earlier result (possibly re-widthed), and every result must still
+		// have its value when the case ends.
+		type folded struct {
+			c    expr.Const
+			want *big.Int
+			desc string
+		}
+		var results []folded
+		defer func() {
+			for _, r := range results {
+				if constVal(r.c).Cmp(r.want) != 0 {
+					t.Fatalf("the constant returned by ConstFold(%s) changed from %x to %s by later folds", r.desc, r.want, irsem.String(r.c))
+				}
+			}
+		}()
+		reuse := func(c expr.Const, label string) expr.Const {
+			if len(results) == 0 || rapid.IntRange(0, 3).Draw(t, label+"_reuse") != 0 {
+				return c
+			}
+			r := results[rapid.IntRange(0, len(results)-1).Draw(t, label+"_which")].c
+			if rapid.Bool().Draw(t, label+"_rewidth") {
+				r = r.WithWidth(irsem.GenWidth(t, irsem.GenCfg{}, label+"_rw"))
+			}
+			col.Class("operand-is-earlier-result")
+			return r
+		}
 		for n := 0; n < inner; n++ {
 			col.Case()
 			w := irsem.GenWidth(t, irsem.GenCfg{}, "w")
 			isLess := rapid.IntRange(0, 6).Draw(t, "isLess") == 0
 			if isLess {
-				c1 := c10Operand(t, 0, 1, w, "a")
-				c2 := c10Operand(t, 0, 2, w, "b")
+				c1 := reuse(c10Operand(t, 0, 1, w, "a"), "a")
+				c2 := reuse(c10Operand(t, 0, 2, w, "b"), "b")
 				if rapid.IntRange(0, 3).Draw(t, "eq") == 0 {
 					c2 = expr.NewConst(c1.Bytes(), c2.Width())
 				}
-				et := c10Operand(t, 0, 1, w, "t")
-				ef := c10Operand(t, 0, 1, w, "f")
+				et := reuse(c10Operand(t, 0, 1, w, "t"), "t")
+				ef := reuse(c10Operand(t, 0, 1, w, "f"), "f")
 				e := expr.NewLess(c1, c2, et, ef, w)
 				var got expr.Expr
 				if msg := catch(func() { got = exprtransform.ConstFold(e) }); msg != "" {
@@ -98,6 +126,7 @@ func TestC10(t *testing.T) {
 						irsem.String(e), irsem.String(gc), want, w)
 				}
 				col.Class("less")
+				results = append(results, folded{gc, want, irsem.String(e)})
 				if c1.Width() != w || c2.Width() != w || et.Width() != w || ef.Width() != w {
 					col.Nontrivial(irsem.String(e))
 				}
@@ -110,8 +139,8 @@ func TestC10(t *testing.T) {
 			}
 
 			op := c10Ops[rapid.IntRange(0, len(c10Ops)-1).Draw(t, "op")]
-			c1 := c10Operand(t, op, 1, w, "a")
-			c2 := c10Operand(t, op, 2, w, "b")
+			c1 := reuse(c10Operand(t, op, 1, w, "a"), "a")
+			c2 := reuse(c10Operand(t, op, 2, w, "b"), "b")
 			e := expr.NewBinary(op, c1, c2, w)
 			var got expr.Expr
 			if msg := catch(func() { got = exprtransform.ConstFold(e) }); msg != "" {
@@ -128,6 +157,7 @@ func TestC10(t *testing.T) {
 					irsem.String(e), irsem.String(gc), want, w)
 			}
 			col.Class(c10OpName(op) + "/w" + widthClass(w))
+			results = append(results, folded{gc, want, irsem.String(e)})
 			nontriv := c1.Width() != w || c2.Width() != w
 			if (op == expr.Lsh || op == expr.Rsh) && b.IsUint64() && b.Uint64() >= 8 {
 				nontriv = true
